@@ -2,8 +2,8 @@
 """keep_seed.py <tag> <property> <caught-by text> <needs text> — store a confirmed seeded change under /verif/seeded/."""
 import json, os, shutil, sys
 tag, prop, caught, needs = sys.argv[1:5]
-src = "/var/tmp/mut/out_%s" % tag
-dst = "/verif/seeded/%s" % tag
+src = os.path.join(os.environ.get("MUT", "/var/tmp/mut"), "out_%s" % tag)
+dst = "/verif/seeded/%s%s" % (tag, os.environ.get("SEED_SUFFIX", ""))
 os.makedirs(dst, exist_ok=True)
 for f in ("patch.diff", "demo.sh", "notes.txt"):
     if os.path.exists(os.path.join(src, f)):
